@@ -15,6 +15,8 @@ import os
 import pathlib
 import re
 
+from conductor.config import ARCHIVE_STAGING as _STAGING
+
 import z3
 
 from vlib import fakeos, hrun, smtstr
@@ -39,7 +41,7 @@ CATALOGUE = [
     ("e.task.5/y.task.2", "dir", False),          # look-alike inside a recorded version: never touched
     ("e.task.05", "dir", False),                  # not a version directory (leading zero): not an experiment output
     ("g.task.8", "file", False),                  # a plain file with an experiment-like name
-    ("archive-tmp/h.task.6", "dir", False),       # leftover of a killed restore
+    (_STAGING + "/h.task.6", "dir", False),       # leftover of a killed restore
     ("w.task.3\n", "dir", False),                 # name with a trailing newline: not an experiment output
     ("e.task.12", "dir", True),                   # recorded AFTER //p/q:f 9: the rows of //:e are not adjacent in the index
 ]
